@@ -10,11 +10,11 @@ use splgen::src::{fnv, Src};
 use splgen::text;
 
 /// lexemes that are lexically valid SPL
-const VALID_LEXEMES: [&str; 60] = [
+const VALID_LEXEMES: [&str; 66] = [
     "(", ")", "[", "]", "{", "}", "=", "#", "<", "<=", ">", ">=", ":=", ":", ",", ";", "+", "-", "*", "/", "if",
     "else", "while", "array", "of", "proc", "ref", "type", "var", "int", "main", "x", "iff", "typ", "elsee", "_",
     "_if", "x1", "of_", "0", "7", "42", "007", "2147483647", "0x1F", "0xff", "0x0", "'a'", "'\\n'", "' '", "'/'",
-    "// c\n", "var1", "if2", "of3", "proc0", "while9", "'\"'", "'\\'", "0x7fffffff",
+    "// c\n", "var1", "if2", "of3", "proc0", "while9", "'\"'", "'\\'", "0x7fffffff", "0x000000001", "0x00000000000ff", "0x123456789", "99999999999", "4294967295", "0xFFFFFFFF",
 ];
 const VALID_SEPS: [&str; 9] = ["", " ", " ", "\n", "\t", "\r\n", "  ", "\n\n", " \n "];
 const EXH_ALPHABET: [&str; 16] = ["a", "i", "f", "0", "x", "1", "<", "=", ":", "/", "'", " ", "\n", "é", "😀", "\\n"];
@@ -55,7 +55,14 @@ pub fn check_text(text: &str, r: &mut CaseResult) {
         r.fail("tiling", v, json!({ "text": text }));
     }
     let reference = reflex::lex(text);
-    if reference.iter().all(|t| t.is_lexically_valid()) {
+    // lexically valid text, or text whose only flaw are literals that do not fit 32 bits: longest
+    // match still makes each of them one token
+    let comparable = reference.iter().all(|t| {
+        t.is_lexically_valid()
+            || (matches!(t.kind, reflex::RKind::Int(None)) && !t.range.is_empty())
+            || (matches!(t.kind, reflex::RKind::Hex(None)) && t.range.len() > 2)
+    });
+    if comparable {
         r.label("conformance-checked");
         if let Some(v) = conformance_violation(text, &toks, &reference) {
             r.fail("conformance", v, json!({ "text": text }));
